@@ -166,8 +166,8 @@ Theorem C04_shape_getitem :
 Proof. vm_compute. reflexivity. Qed.
 Theorem C04_shape_run : calls_only_list tk_seeker_run = expected_run.
 Proof. vm_compute. reflexivity. Qed.
-Theorem C04_shape_apply_to_file :
-  calls_only_list tk_apply_to_file = expected_apply_to_file.
+Theorem C04_shape_apply_to_file_try :
+  try_of (calls_only_list tk_apply_to_file) = [expected_apply_try].
 Proof. vm_compute. reflexivity. Qed.
 
 (* (b) what the events do not show *)
@@ -194,10 +194,10 @@ Proof. repeat split; reflexivity. Qed.
    pieces, are the model functions - for all inputs *)
 Theorem C04_apply_to_file_is_source : forall H A L W tsw c since pos0,
   ap_interp apply_seek_sites (lenZ c) pos0 (run H A L W tsw c since pos0)
-            (calls_only_list tk_apply_to_file)
+            (try_of (calls_only_list tk_apply_to_file))
   = apply_to_file H A L W tsw c since pos0.
 Proof.
-  intros. rewrite C04_shape_apply_to_file, C04_src_seek_sites.
+  intros. rewrite C04_shape_apply_to_file_try, C04_src_seek_sites.
   apply ap_interp_correct.
 Qed.
 
@@ -220,6 +220,27 @@ Proof.
   intros. rewrite C04_shape_getitem, C04_src_getitem_args.
   apply gi_interp_correct. intros d s. apply (C04_src_comparisons d s).
 Qed.
+
+(* the seeker starts with found_any_date = False, line_info = None (the
+   model's [st0]); its length is f.seek(0, 2) measured inside a
+   SavedFilePosition block, which seeks back to where the file was, so
+   constructing a seeker and reading lines / dates never moves the file *)
+Theorem C04_seeker_init_is_source :
+  st0 = (seeker_init_found_any_date, None) /\
+  seeker_init_line_info_is_none = true /\
+  seeker_length_seek = (0, 2) /\
+  (forall n, seeker_len n = n) /\
+  (forall p, saved_position_after_exit p = p).
+Proof. repeat split; reflexivity. Qed.
+
+(* SearchTask._run_search (Gen/SkelTree.v tk_run_search): directly after the
+   file-level constraint has been applied the lines are read - no test, no
+   return, no raise in between (whatever position the constraint left the
+   file at is where searching starts, for plain and gzip files alike) *)
+Theorem C04_run_search_reads_right_after_constraint :
+  after_call "apply_global" (calls_only_list tk_run_search)
+  = Some (SEv (Call "enumerate_lines")).
+Proof. vm_compute. reflexivity. Qed.
 
 (* ---- non-vacuity ----------------------------------------------------------
    A toy oracle: a line is dated iff it starts with 'd' (100); its date is
@@ -282,3 +303,5 @@ Print Assumptions C04_first_in_window_is_declarative.
 Print Assumptions C04_apply_to_file_is_source.
 Print Assumptions C04_run_is_source.
 Print Assumptions C04_getitem_is_source.
+Print Assumptions C04_seeker_init_is_source.
+Print Assumptions C04_run_search_reads_right_after_constraint.
